@@ -264,4 +264,7 @@ def run_loop(I, s, f, sp, kind, iterable):
                 cur = f.locals.get(t.id, UNBOUND)
                 f.locals[t.id] = SymInt(E.fresh_int(t.id)) if isinstance(cur, (int, SymInt)) or cur is UNBOUND else cur
     E.cover(label + ".exit")
+    if sp.ghost_step is not None:
+        bind_head()
+        sp.ghost_step("exit", Env(f, I, extra))
     I.exec_block(s.orelse, f)
